@@ -439,7 +439,10 @@ def run_case(case, workdir):
         if n % 7 == 1:
             ctl2, ev2, dg2, obs2 = observe(tool, env, out, False, plan)
             if dg2 != dg:
-                raise RuntimeError("harness: replaying schedule %r gave another observation" % (plan,))
+                # pools, schedules and the process are the harness's (fresh fork per chunk): what is left is state that the code
+                # under test carried over from the first run - the result depends on something else than inputs and schedule
+                rec.fail("history_dependent", dict(sub, history="the same operation repeated in one process under the same schedule"),
+                         "%r vs %r" % (obs2, obs))
     # the size of the pool is visible to the code (Pool()._processes, os.cpu_count()): 1, 2, 3 and 5 workers
     import unittest.mock
     for nw in (1, 2, 3, 5):
